@@ -98,10 +98,20 @@ Record options := {
 Definition strip_ws (s : string) : string := strip_by is_pyspace s.
 (* the raw multimap built by the loop: (key, value) in insertion order *)
 Definition kv := (string * string)%type.
+(* str.split("=", 1): at most one split *)
+Definition split_first (c : ascii) (s : string) : list string :=
+  match split_on c s with
+  | x :: (_ :: _) as rest => [x; sjoin (String c "") rest]
+  | l => l
+  end.
+(* the code as it is splits at every "=" (opt_split_first = false, regenerated from /repo); with the maxsplit argument it
+   splits once.  Both are modelled so that the tie survives the repair of DESIGN section 9 no. 19. *)
+Definition split_eq (first : bool) (s : string) : list string :=
+  if first then split_first "="%char s else split_on "="%char s.
 (* one option of the comma separated string: Err when "k, v = opt.split('=')" cannot unpack *)
-Definition parse_opt (raw : string) : res (list kv) :=
+Definition parse_opt_gen (first : bool) (raw : string) : res (list kv) :=
   let opt := strip_ws raw in
-  let parts := split_on "="%char opt in
+  let parts := split_eq first opt in
   match parts with
   | [k] => Ok ((if mem_str k opt_flags then [(k, "true")] else []) ++
                (match strip_prefix gapic_prefix k with Some k' => [(k', "true")] | None => [] end))%list
@@ -109,11 +119,13 @@ Definition parse_opt (raw : string) : res (list kv) :=
                   (match strip_prefix gapic_prefix k with Some k' => [(k', v)] | None => [] end))%list
   | _ => Err EBadOption
   end.
-Fixpoint parse_opts (l : list string) : res (list kv) :=
+Fixpoint parse_opts_gen (first : bool) (l : list string) : res (list kv) :=
   match l with
   | [] => Ok []
-  | x :: l' => bind (parse_opt x) (fun a => bind (parse_opts l') (fun b => Ok (a ++ b)%list))
+  | x :: l' => bind (parse_opt_gen first x) (fun a => bind (parse_opts_gen first l') (fun b => Ok (a ++ b)%list))
   end.
+Definition parse_opt : string -> res (list kv) := parse_opt_gen opt_split_first.
+Definition parse_opts : list string -> res (list kv) := parse_opts_gen opt_split_first.
 Definition values (k : string) (m : list kv) : list string :=
   map snd (filter (fun e => String.eqb (fst e) k) m).
 Definition truthy (k : string) (m : list kv) : bool := match values k m with [] => false | _ => true end.
@@ -141,8 +153,9 @@ Definition options_of (m : list kv) : options :=
      o_numeric_enums := truthy "rest-numeric-enums" m;
      o_pp_deps := match values "proto-plus-deps" m with [] => [] | x :: _ => split_on "+"%char x end;
      o_warn := dedup (filter (fun k => negb (mem_str k consumed_keys)) (map fst m)) |}.
-Definition options_build (opt_string : string) : res options :=
-  bind (parse_opts (split_on ","%char opt_string)) (fun m => Ok (options_of m)).
+Definition options_build_gen (first : bool) (opt_string : string) : res options :=
+  bind (parse_opts_gen first (split_on ","%char opt_string)) (fun m => Ok (options_of m)).
+Definition options_build : string -> res options := options_build_gen opt_split_first.
 
 (* ------------------------------------------------------------------ Naming.build *)
 Definition ns_char (c : ascii) : bool := is_lower c || is_digit c || Ascii.eqb c "_"%char || is_dot c.
